@@ -65,6 +65,13 @@ def tellPath (hs : List Header) : List Flat := deliverBatch [] (hs.map inject)
     `http.Header` with `Set` — the same two functions, once per request -/
 def askPath (h : Header) : Flat := restore (inject h)
 
+/-- a client used for a SEQUENCE of calls of mixed kinds (true = request-level ask, false = coalesced
+    tell): every call builds its carrier from scratch (`make(nethttp.Header, 4)` in both
+    `enrichContext` and `injectMessageMetadata`), so a call's metadata is a function of its own
+    header map only — nothing of an earlier call survives into a later one -/
+def seqPath (steps : List (Bool × Header)) : List Flat :=
+  steps.map fun (isAsk, h) => if isAsk then askPath h else (tellPath [h]).headD []
+
 /-- what the property promises for a header map: same entries, keys in canonical MIME form -/
 def expected (h : Header) : Flat := h.filterMap fun (k, vs) => vs.head?.map fun v => (canonKey k, v)
 
